@@ -48,17 +48,20 @@ class _ParseSpec(Spec):
         elif self.prop in ("C01", "C02"):
             for s in docs.g1_shards(3):
                 out.append(self.job(s))
-            for s in docs.g2_shards(pool, replace=True):
-                out.append(self.job(s))
-            for s in docs.g2_shards(docs.load_pool("core"), replace=False, insert=True):
-                out.append(self.job(s))
-            for s in docs.g2_pairs(_PAIRS[:7]):
+            core = set(docs.load_pool("core"))
+            for i, s in enumerate(docs.g2_shards(pool, replace=True)):
+                if s["base"] in core or i % 2 == 0:
+                    out.append(self.job(s))
+            for s in docs.g2_pairs(_PAIRS[:4]):
                 out.append(self.job(s, budget=600.0))
         else:
             for s in docs.g1_shards(3):
                 out.append(self.job(s))
-            for s in docs.g2_shards(docs.load_pool("core"), replace=True, insert=True):
+            for s in docs.g2_shards(docs.load_pool("core"), replace=True):
                 out.append(self.job(s))
+            for i, s in enumerate(docs.g2_shards(docs.load_pool("core"), replace=False, insert=True)):
+                if i % 2 == 0:
+                    out.append(self.job(s))
         # G1-Sigma: all documents of length n over small Markdown-significant alphabets
         if tier == "quick":
             for name, n, split in (("emphasis", 5, 2), ("links", 4, 1), ("containers", 4, 1)):
@@ -86,11 +89,11 @@ class _ParseSpec(Spec):
                     "G1-Sigma": "all documents of length 5 over {*,_,a,space,`}, of length 4 over {[,],(,),a,!} and over {>,-,space,newline,a,1,.}",
                     "per_path_timeout_s": self.per_path_timeout}
         if self.prop in ("C04", "C05"):
-            return {"G1": "all documents of length 0..3", "G2": "core skeleton pool, one symbolic cell replacing each position and one inserted at each position",
+            return {"G1": "all documents of length 0..3", "G2": "core skeleton pool, one symbolic cell replacing each position and one inserted at every second position",
                     "G1-Sigma": "all documents of length 7 over {*,_,a,space,`}, length 6 over {[,],(,),a,!} and {>,-,space,newline,a,1,.}, length 5 over {#,=,`,~,newline,space,a,-}", "per_path_timeout_s": self.per_path_timeout}
         return {"G1": "all documents of length 0..3",
                 "G1-Sigma": "all documents of length 7 over {*,_,a,space,`}, length 6 over {[,],(,),a,!} and {>,-,space,newline,a,1,.}, length 5 over {#,=,`,~,newline,space,a,-}",
-                "G2": "full skeleton pool, one symbolic cell replacing each position; core pool, one cell inserted at each position; two adjacent symbolic cells at 7 listed (skeleton, position) pairs",
+                "G2": "core pool one symbolic cell replacing each position, rest of the full pool every second position; two adjacent symbolic cells at 4 listed (skeleton, position) pairs",
                 "per_path_timeout_s": self.per_path_timeout}
 
     outside = [
